@@ -4,6 +4,23 @@ import json
 props={json.loads(l)['id']:json.loads(l) for l in open('/verif/properties.jsonl')}
 # id -> (technique, level text, level note, design ref)
 CLAIMED={
+
+ 'C01':("exhaustive enumeration of all core-form programs up to a weight bound, each run on the real EVAL and compared with an independent definitional interpreter",
+        "All 1.76 M programs of weight <=5 (quick) / 47 M of weight <=6 plus 63 M closure/recursion programs (thorough) over the core special forms are evaluated by the real EVAL in a fresh scope and by a definitional interpreter written from the mal definition; value, error-vs-value, thrown payload, ordered effect trace and final bindings must agree. Small-scope exhaustiveness is the right level: the semantics is compositional and every rule interaction (scope, branch selection, argument order, rest parameters) already occurs within 5-6 nodes.",
+        "The definitional interpreter (harness/internal/model/interp.go) is the specification; error messages are not compared; programs above the weight bound are not covered.",
+        "DESIGN.md §4 C01"),
+ 'C02':("explicit-state enumeration of all operation histories up to depth 2/3 on the real builtins, invariant re-checked on every earlier binding after every step",
+        "Every type-correct history of 2 (quick) / 3 (thorough, 17 M executions) operations over 42 collection-producing operation kinds, applied to any earlier value starting from 7 seeds chosen for their aliasing hazards (literal vector with spare capacity, reader array, subvec window, registry map), is replayed on a fresh scope of the real interpreter; after each step every earlier binding is re-read and must be unchanged. Aliasing bugs need two derivations from a common ancestor, which depth 2-3 covers exhaustively.",
+        "Histories deeper than the bound; operations outside the 42 kinds; canonical printed structure as the notion of 'unchanged'.",
+        "DESIGN.md §4 C02"),
+ 'C03':("exhaustive enumeration of all try/catch/finally nests up to a weight bound against the definitional interpreter",
+        "All 224 k (quick) / 2.1 M (thorough) try forms with 0-2 body forms, optional catch and finally clauses, 8 thrown objects (lisp values, Go error), throws from body, called function, macro expansion, Go builtin returning an error, Go builtin panicking with an error or a string, nested try, are run on the real EVAL and on the model; result, thrown payload (ErrorValue), errors.Is for Go errors and the effect trace (exactly-once finally, handler not re-evaluated, catch variable scope) must agree.",
+        "Model interpreter as specification; a failing finally body is swallowed (README); nests above the weight bound.",
+        "DESIGN.md §4 C03"),
+ 'C12':("exhaustive enumeration of quasiquote templates and template-built macros against a substitution model and against the implementation's own macroexpand",
+        "All 403 k (quick) / 5 M (thorough) quasiquote templates up to the weight bound are compared with substitution computed on the model ADT and with eval of quasiquoteexpand; all macros (fn [p & r] `CT) for code templates CT up to the bound x operand tuples are compared with the model, with evaluating their own macroexpand result (whose head must not be a macro), and with the same body as an ordinary function; plus recursive/nested/library macro families.",
+        "Model interpreter as specification; malformed unquote forms and non-sequence splices are out of scope (skipped, counted).",
+        "DESIGN.md §4 C12"),
  'C05':("exhaustive enumeration of bounded text spaces against the real reader (explicit-state, every case executed)",
         "Every token sequence (<=4 quick / <=5 thorough over 31 tokens), every byte-fragment sequence and every preamble line sequence within the bound is run through six reader entry points of the code built from /repo under recover and a watchdog. A pass is a coverage statement over the whole bounded space, which is what an 'all inputs' panic/hang property needs; the defects found this way (prefix macro at EOF, $x without a map, «» forms) were all within 2 tokens of tested inputs.",
         "Go runtime, jig/scanner (external module, explored but not repairable here); inputs above the bound or outside the alphabets; a hang is judged by a 20 s per-case watchdog.",
